@@ -22,26 +22,37 @@ MAXUDP = 1232
 
 
 # ================================================================ plumbing
+_VIEW_LOCK = __import__("threading").Lock()
+_VIEW_DONE = {}
+
+
 def inst_view(pkg):
-    """instantiate the shared Go helper for one package (overlay file under build/)"""
-    p = os.path.join(lib.BUILD, "c11_view_%s_%d_test.go" % (pkg, os.getpid()))
-    with open(os.path.join(lib.INPKG, "c11", "view.go.tmpl")) as f:
-        txt = f.read()
-    with open(p, "w") as f:
-        f.write("//go:build verif\n\n" + txt.replace("package PKGNAME", "package " + pkg))
-    return p
+    """instantiate the shared Go helper for one package (overlay file under build/): written once per process and
+    package, atomically — several go test jobs of one package run in parallel and read it while building"""
+    with _VIEW_LOCK:
+        if pkg in _VIEW_DONE:
+            return _VIEW_DONE[pkg]
+        p = os.path.join(lib.BUILD, "c11_view_%s_%d_test.go" % (pkg, os.getpid()))
+        with open(os.path.join(lib.INPKG, "c11", "view.go.tmpl")) as f:
+            txt = f.read()
+        tmp = p + ".tmp"
+        with open(tmp, "w") as f:
+            f.write("//go:build verif\n\n" + txt.replace("package PKGNAME", "package " + pkg))
+        os.replace(tmp, p)
+        _VIEW_DONE[pkg] = p
+        return p
 
 
 TIMES = {}
 
 
-def go_run(ctx, pkgpath, pkgname, driver, test, cases, extra=None, timeout=900, more_files=None):
+def go_run(ctx, pkgpath, pkgname, driver, test, cases, extra=None, timeout=900, more_files=None, race=False):
     import time
     t0 = time.time()
     files = {"zz_verif_driver_test.go": "c11/" + driver, "zz_verif_view_test.go": inst_view(pkgname)}
     files.update(more_files or {})
-    r = ctx.go_inpkg(".", pkgpath, files, "^%s$" % test, cases, extra_overlay=extra, timeout=timeout)
-    TIMES["go:%s(%d)" % (pkgname, len(cases) if cases else 0)] = round(time.time() - t0, 1)
+    r = ctx.go_inpkg(".", pkgpath, files, "^%s$" % test, cases, extra_overlay=extra, timeout=timeout, race=race)
+    TIMES["go:%s:%s%s(%d)" % (pkgname, test[len("TestVerifC11"):], "/race" if race else "", len(cases) if cases else 0)] = round(time.time() - t0, 1)
     return r
 
 
@@ -797,6 +808,109 @@ def post_api(ctx, cases, res):
     return terms, idx
 
 
+# ---------------------------------------------------------------- registrar: sequences of requests around a reload
+def gen_seq(ctx):
+    """[r1 of every error-path class; ReloadSubnets; well-formed r2 (bidirectional and unidirectional)] on one registrar.
+    The per-call theorems say nothing about locks held ACROSS calls (that is C13's theorem); this lane is the tie for it:
+    a request that leaves the selector lock held makes the reload, and every request after it, hang."""
+    rng = fixed_rng("seq")
+    sec = SECRETS[1]
+
+    def req(w, handler="bidi", zmqfail=False, body=None):
+        return {"kind": "req", "req": {"handler": handler, "method": "POST", "body": (body if body is not None else pad33(w)).hex(), "xff": [],
+                                       "remote": "", "clen": None, "chunked": False, "ccgen": None, "zmqfail": zmqfail}}
+
+    def wr(**kw):
+        return base_wrapper(kw.pop("tr", 1), kw.pop("lv", 4), rng=rng, secret=kw.pop("secret", sec), **kw)
+    good = wr(gen=1)
+    firsts = [("v4-select-fails", wr(gen=7777, v4=1, v6=0)), ("v6-select-fails", wr(gen=7777, v4=0, v6=1)), ("both-select-fail", wr(gen=7777)),
+              ("v4-ok-v6-fails", wr(gen=957, secret=SECRET)), ("v6-only-ok", wr(gen=1, v4=0, v6=1)), ("v4-only-ok", wr(gen=1, v4=1, v6=0)),
+              ("no-family", wr(gen=1, v4=0, v6=0)), ("legacy-libver0-v6", wr(gen=1, lv=0)), ("legacy-libver1", wr(gen=957, lv=1)),
+              ("unknown-transport", wr(gen=1, tr=5)), ("params-error", wr(gen=1, tr=4, params={"url": pb.T_PREFIX, "value": pb.enc_prefix({"id": 77})})),
+              ("dstport-error", wr(gen=957, tr=4, params=None)), ("no-payload", {"secret": sec}), ("short-secret", dict(wr(gen=1), secret=b"abc")),
+              ("well-formed", good)]
+    seqs = []
+    for lbl, w in firsts:
+        seqs.append((lbl, [req(w), {"kind": "reload"}, req(good), req(good, handler="uni")]))
+    seqs.append(("garbage", [req(None, body=b"\xff" * 40), {"kind": "reload"}, req(good)]))
+    seqs.append(("zmq-fails", [req(good, zmqfail=True), {"kind": "reload"}, req(good)]))
+    seqs.append(("uni-first", [req(wr(gen=7777), handler="uni"), {"kind": "reload"}, req(good)]))
+    # several failing requests, two reloads
+    seqs.append(("many", [req(w) for _, w in firsts[:6]] + [{"kind": "reload"}, req(good), {"kind": "reload"}, req(firsts[1][1]), {"kind": "reload"}, req(good)]))
+    return seqs
+
+
+def post_seq(ctx, seqs, res):
+    terms, idx = [], []
+    for k, ((lbl, steps), obs) in enumerate(zip(seqs, res)):
+        hung = False
+        for si, (st, r) in enumerate(zip(steps, obs)):
+            what = "ReloadSubnets" if st["kind"] == "reload" else "%s request" % st["req"]["handler"]
+            if r["out"] != "ret":
+                # the first step that does not come back names the failing sequence; later steps hang for the same reason
+                if not hung:
+                    ctx.fail("%s:registrar-sequence/%s" % (r["out"], lbl),
+                             "registrar sequence '%s': step %d (%s) %s after the preceding externally supplied request(s) — %s"
+                             % (lbl, si, what, "did not return within 4 s" if r["out"] == "hang" else "panicked: " + r["detail"][:300],
+                                "no status line for this and every later bidirectional request, the reload never completes" if r["out"] == "hang" else ""),
+                             {"entry": "registrar-sequence", "label": lbl, "failing_step": si,
+                              "steps": [s if s["kind"] == "reload" else {"kind": "req", "handler": s["req"]["handler"], "body": s["req"]["body"][:400], "zmqfail": s["req"]["zmqfail"]} for s in steps]})
+                hung = True
+                continue
+            if st["kind"] == "reload":
+                if r["err"]:
+                    ctx.broken("driver", "ReloadSubnets failed in the sequence lane: " + r["err"])
+                continue
+            if hung:
+                continue
+            g = st["req"]
+            body_len = len(g["body"]) // 2
+            reqt = ("{| h_post := true; h_remote := %s; h_remote_loopback := false; h_xff := []; h_clen := %s; h_blen := %s; h_read_ok := true; h_body := %s |}"
+                    % (gopt(parse_ip16("192.0.2.1"), hexs), gZ(body_len), gZ(body_len), g_view(r["view"])))
+            terms.append("AApiRec (%s, rpcfg0 true 0, %s, %s, None, %s, (false, %s, %s))" % (gbool(g["handler"] == "bidi"), g_seltab(r["sel"]), gbool(not g["zmqfail"]),
+                                                                                            reqt, gN(r["code"]), gN(r["pub"])))
+            idx.append(k)
+        ctx.count(("seq", lbl), nontrivial=True, kind="seq/" + ("hang" if hung else "ok"))
+    return terms, idx
+
+
+# ---------------------------------------------------------------- station: concurrent lane (child process)
+CONC_PHANTOM = bytes([192, 0, 2, 77])
+
+
+def gen_conc(ctx):
+    rng = fixed_rng("conc")
+    templates = []
+    for tr in (1, 2, 4):
+        w = base_wrapper(tr, gen=1, v4=1, v6=0, rng=rng, secret=bytes(32))
+        w["resp"] = {"ipv4": int.from_bytes(CONC_PHANTOM, "big")}     # registrar-supplied override: every registration lands on one phantom
+        w["source"] = 2
+        b = pb.enc_wrapper(w)
+        assert b[:2] == b"\x0a\x20"
+        templates.append(b.hex())
+    return [{"templates": templates, "phantom": CONC_PHANTOM.hex(), "duration_ms": 3500 if ctx.tier == "quick" else 12000, "workers": 4}]
+
+
+def post_conc(ctx, name, result):
+    rc, out, res = result
+    ok = res is not None and len(res) == 1 and res[0].get("done") and rc == 0
+    if not ok:
+        m = re.search(r"(fatal error: [^\n]*|WARNING: DATA RACE|panic: [^\n]*)", out)
+        why = m.group(1) if m else ("workers did not stop (deadlock?)" if res and not res[0].get("done") else "no result")
+        tail = out[out.index(m.group(1)):][:1500] if m else out[-1200:]
+        ctx.fail("crash:station-concurrent/%s" % re.sub(r"[^a-zA-Z]+", "-", why)[:50].strip("-"),
+                 "station process ended abnormally (%s) while ZMQ registrations for one phantom were ingested concurrently with first-flight bytes "
+                 "handed to every wrapping transport's WrapConnection for that phantom and with the sweeper [%s]: %s" % (why, name, tail),
+                 {"entry": "station-concurrent", "lane": name, "phantom": CONC_PHANTOM.hex(),
+                  "inputs": "registration messages with registration_response.ipv4addr = the phantom and fresh shared secrets; connections delivering 32..8192 arbitrary bytes to that phantom"})
+        ctx.count(("conc", name), nontrivial=True, kind="conc/%s/crash" % name)
+        return
+    ctx.cov.setdefault("concurrent_lane", {})[name] = res[0]
+    if res[0]["ingested"] < 50 or res[0]["wraps"] < 50:
+        ctx.broken("generator-selftest", "the concurrent station lane did too little work: %s" % res[0])
+    ctx.count(("conc", name), nontrivial=True, kind="conc/%s/clean" % name)
+
+
 # ---------------------------------------------------------------- registrar: DNS processRequest
 def gen_dnsproc(ctx, corpus, garbage):
     cases, meta = [], []
@@ -1335,6 +1449,7 @@ REQUIRED_KINDS = [
     "dnsproc/success", "dnsproc/fail", "dnsproc/err",
     "worker/announced0", "worker/announced1", "worker/announced2", "worker/err", "worker-share/announced2/shared/peer200",
     "worker-share/announced2/shared/peer500", "worker-share/announced2/shared/peer0", "rawreg/announced", "rawreg/dropped",
+    "seq/ok", "conc/plain/clean", "conc/race/clean",
     "dtlsconn/dnat", "dtlsconn/err6", "dtlsconn/err21", "tryfromid/ok", "tryfromid/err", "prefix/newfile/ok10",
     "min/found", "min/err20", "min/err21", "prefix/found", "prefix/err20", "prefix/err21", "prefix/err22", "prefix/err23",
     "obfs4/err20", "obfs4/err21", "obfs4/err24", "markmac/panic", "markmac/found", "markmac/none",
@@ -1397,6 +1512,8 @@ def run_(ctx):
     ob_cases = gen_obfs4(ctx)
     dns_pkts = gen_dns(ctx)
     dc_cases = gen_dtlsconn(ctx)
+    seqs = gen_seq(ctx)
+    conc_cases = gen_conc(ctx)
     pf_extra = []
     # cases carried by a replay file (the enumeration itself is deterministic, so re-running the check replays it anyway)
     for f in (ctx.replay or {}).get("failures", []):
@@ -1478,11 +1595,16 @@ def run_(ctx):
         "obfs4": lambda: go_run(ctx, "pkg/transports/wrapping/obfs4", "obfs4", "obfs4_driver_test.go", "TestVerifC11Obfs4", ob_cases),
         "dns": lambda: go_run(ctx, "pkg/registrars/dns-registrar/responder", "responder", "responder_driver_test.go", "TestVerifC11Responder",
                               [{"pkt": p.hex(), "has_plain": pl is not None, "plain": (pl or b"").hex(), "resplen": rl} for _, p, pl, rl in dns_pkts]),
+        "seq": lambda: go_run(ctx, "pkg/regserver/apiregserver", "apiregserver", "api_driver_test.go", "TestVerifC11ApiSeq",
+                              [{"steps": st} for _, st in seqs], extra=EXPORT_SHIM),
+        "conc": lambda: go_run(ctx, "pkg/station/lib", "lib", "station_driver_test.go", "TestVerifC11StationConc", conc_cases, timeout=300),
         "dtlsconn": lambda: go_run(ctx, "pkg/transports/connecting/dtls", "dtls", "dtls_driver_test.go", "TestVerifC11DtlsConnect", dc_cases),
         "prefix-dump": lambda: go_run(ctx, "pkg/transports/wrapping/prefix", "prefix", "prefix_driver_test.go", "TestVerifC11Prefix", [{"op": "dump"}]),
     }
     results = {}
-    with ThreadPoolExecutor(max_workers=9) as ex:
+    if os.environ.get("VERIF_C11_RACE", "1") == "1":
+        jobs["conc-race"] = lambda: go_run(ctx, "pkg/station/lib", "lib", "station_driver_test.go", "TestVerifC11StationCon[c]", conc_cases, timeout=600, race=True)
+    with ThreadPoolExecutor(max_workers=12) as ex:
         futs = {k: ex.submit(f) for k, f in jobs.items()}
         # the prefix run proper depends on the dumped table
         rc, out, res = futs["prefix-dump"].result()
@@ -1533,6 +1655,12 @@ def run_(ctx):
     res = ok("obfs4", len(ob_cases))
     if res:
         add("obfs4", post_obfs4(ctx, ob_cases, res), ob_cases)
+    res = ok("seq", len(seqs))
+    if res:
+        add("seq", post_seq(ctx, seqs, res), [{"label": l} for l, _ in seqs])
+    post_conc(ctx, "plain", results["conc"])
+    if "conc-race" in results:
+        post_conc(ctx, "race", results["conc-race"])
     res = ok("dtlsconn", len(dc_cases))
     if res:
         add("dtlsconn", post_dtlsconn(ctx, dc_cases, res), dc_cases)
